@@ -14,6 +14,9 @@ def key(name):
 
 def main():
     results = json.load(open(os.path.join(HERE, "seeded", "RESULTS.json"), encoding="utf-8"))
+    jpath = os.path.join(HERE, "seeded", "JUDGEMENTS.json")
+    judged = json.load(open(jpath, encoding="utf-8")) if os.path.exists(jpath) else {}
+    outside = 0
     rows = ["| change | what was changed (one line) | needs, in order to manifest | confirmed | caught by | first failure reported |",
             "|---|---|---|---|---|---|"]
     caught = missed = 0
@@ -27,8 +30,13 @@ def main():
         det = [t for t, r in checks.items() if r.get("detected")]
         if det:
             caught += 1
-            by = "`./check %s` (%s tier, %.0f s)" % (row["property"], det[0], checks[det[0]]["wall_s"])
+            by = "`./check %s` (%s tier, %.0f s; %s)" % (row["property"], det[0], checks[det[0]]["wall_s"],
+                                                        checks[det[0]].get("how", "search"))
             first = checks[det[0]].get("first_failure", "").replace("failure: ", "")[:150].replace("|", "/")
+        elif name in judged:
+            outside += 1
+            by = "not caught - judged outside the statement"
+            first = judged[name][:220].replace("|", "/")
         else:
             missed += 1
             by = "**not caught**" if checks else "no check"
@@ -36,7 +44,8 @@ def main():
         rows.append("| %s | %s | %s | %s | %s | %s |" % (name, summary, needs, "yes" if row.get("confirmed") else "NO",
                                                       by, first))
     rows.append("")
-    rows.append("%d seeded changes, %d caught, %d not caught." % (caught + missed, caught, missed))
+    rows.append("%d seeded changes: %d caught, %d not caught, %d judged to fall outside the statement (reasons in "
+                "`seeded/JUDGEMENTS.json`)." % (caught + missed + outside, caught, missed, outside))
     table = "\n".join(rows)
     path = os.path.join(HERE, "DESIGN.md")
     text = open(path, encoding="utf-8").read()
@@ -45,7 +54,7 @@ def main():
         raise SystemExit("markers missing in DESIGN.md")
     text = text[:text.index(begin) + len(begin)] + "\n" + table + "\n" + text[text.index(end):]
     open(path, "w", encoding="utf-8").write(text)
-    print("%d rows, %d caught, %d missed" % (caught + missed, caught, missed))
+    print("%d rows, %d caught, %d missed, %d outside" % (caught + missed + outside, caught, missed, outside))
 
 
 if __name__ == "__main__":
